@@ -303,7 +303,7 @@ theorem isDigit_of_ascii {c : Char} (h : asciiDigit c) : isDigit c = true := by
   rw [List.any_eq_true]
   exact ⟨(48, 57), by decide, by simp; exact h⟩
 
-theorem word_of_ascii {c : Char} (h : asciiDigit c) : Gen.cs18.mem c = true := by
+theorem word_of_ascii {c : Char} (h : asciiDigit c) : Gen.cs_14d6aa8a.mem c = true := by
   unfold CharSet.mem
   rw [List.any_eq_true]
   exact ⟨(48, 57), by decide, by simp; exact h⟩
@@ -322,15 +322,15 @@ theorem search_of_matchHere (r : Rx) (l : List Char) (h : (matchHere r ⟨none, 
 theorem search_tr (dcs : CharSet) (dirs : List Char)
     (hd : ∀ c, dcs.mem c = decide (c ∈ dirs)) (hdis : ∀ c, isDigit c = true → c ∉ dirs)
     (d : Str) (ch : Char) (h1 : d ≠ []) (h2 : d.length ≤ 3) (h3 : ∀ x ∈ d, asciiDigit x) (h4 : ch ∈ dirs)
-    (hw : Gen.cs18.mem ch = true) :
-    ((Rx.seq (.wordb Gen.cs18) (.seq (numRx 1 2 3 dcs) (.wordb Gen.cs18))).search (d ++ [ch])).isSome = true := by
+    (hw : Gen.cs_14d6aa8a.mem ch = true) :
+    ((Rx.seq (.wordb Gen.cs_14d6aa8a) (.seq (numRx 1 2 3 dcs) (.wordb Gen.cs_14d6aa8a))).search (d ++ [ch])).isSome = true := by
   apply search_of_matchHere
   rw [matchHere_eq]
   have hp := parseNum_complete hdis [] h1 h2 (fun x hx => isDigit_of_ascii (h3 x hx)) h4
   rcases d with _ | ⟨c1, t⟩
   · exact absurd rfl h1
   have hw1 := word_of_ascii (h3 c1 (by simp))
-  have e0 : (Rx.wordb Gen.cs18).all ⟨none, c1 :: t ++ [ch], 0, []⟩ = [⟨none, c1 :: t ++ [ch], 0, []⟩] := by
+  have e0 : (Rx.wordb Gen.cs_14d6aa8a).all ⟨none, c1 :: t ++ [ch], 0, []⟩ = [⟨none, c1 :: t ++ [ch], 0, []⟩] := by
     simp [all_wordb, isWord, hw1]
   rw [all_seq, e0]
   simp only [List.flatMap_cons, List.flatMap_nil, List.append_nil]
@@ -338,11 +338,11 @@ theorem search_tr (dcs : CharSet) (dirs : List Char)
   simp [all_wordb, isWord, hw]
 
 theorem search_sec (a b : Char) (ha : asciiDigit a) (hb : asciiDigit b) :
-    ((Rx.seq (.wordb Gen.cs18) (.seq (.rep (.chr Gen.cs1) 2 (some 2)) (.wordb Gen.cs18))).search [a, b]).isSome
+    ((Rx.seq (.wordb Gen.cs_14d6aa8a) (.seq (.rep (.chr Gen.cs_940665b9) 2 (some 2)) (.wordb Gen.cs_14d6aa8a))).search [a, b]).isSome
       = true := by
   apply search_of_matchHere
   rw [matchHere_eq]
-  have e0 : (Rx.wordb Gen.cs18).all ⟨none, [a, b], 0, []⟩ = [⟨none, [a, b], 0, []⟩] := by
+  have e0 : (Rx.wordb Gen.cs_14d6aa8a).all ⟨none, [a, b], 0, []⟩ = [⟨none, [a, b], 0, []⟩] := by
     simp [all_wordb, isWord, word_of_ascii ha]
   rw [all_seq, e0]
   simp only [List.flatMap_cons, List.flatMap_nil, List.append_nil]
@@ -388,8 +388,8 @@ theorem finishSec_int (i : Int)
 theorem finishTwpRge_num (n : Nat) (hn : n < 1000) (ch : Char) (hfix : pyLowerChar ch = [ch]) (undef err : Str)
     (dcs : CharSet) (dirs : List Char)
     (hd : ∀ c, dcs.mem c = decide (c ∈ dirs)) (hdis : ∀ c, isDigit c = true → c ∉ dirs)
-    (h4 : ch ∈ dirs) (hw : Gen.cs18.mem ch = true) :
-    finishTwpRge (.int n) [ch] undef err (Rx.seq (.wordb Gen.cs18) (.seq (numRx 1 2 3 dcs) (.wordb Gen.cs18)))
+    (h4 : ch ∈ dirs) (hw : Gen.cs_14d6aa8a.mem ch = true) :
+    finishTwpRge (.int n) [ch] undef err (Rx.seq (.wordb Gen.cs_14d6aa8a) (.seq (numRx 1 2 3 dcs) (.wordb Gen.cs_14d6aa8a)))
       = natToStr n ++ [ch] := by
   have hs := search_tr dcs dirs hd hdis (natToStr n) ch (natToStr_ne_nil n)
     (natToStr_length_le n 3 (by omega) (by omega)) (natToStr_ascii n) h4 hw
@@ -409,19 +409,19 @@ theorem construct_ok (t r s : Nat) (ht : t < 1000) (hr : r < 1000) (hs : s < 100
       = .ok (natToStr t ++ [ns] ++ natToStr r ++ [ew] ++ pyRJust (natToStr s) 2 '0') := by
   have hfn : pyLowerChar ns = [ns] := by rcases hns with rfl | rfl <;> decide
   have hfe : pyLowerChar ew = [ew] := by rcases hew with rfl | rfl <;> decide
-  have hwn : Gen.cs18.mem ns = true := by rcases hns with rfl | rfl <;> decide
-  have hwe : Gen.cs18.mem ew = true := by rcases hew with rfl | rfl <;> decide
+  have hwn : Gen.cs_14d6aa8a.mem ns = true := by rcases hns with rfl | rfl <;> decide
+  have hwe : Gen.cs_14d6aa8a.mem ew = true := by rcases hew with rfl | rfl <;> decide
   have hmn : ns ∈ nsDirs := by rcases hns with rfl | rfl <;> decide
   have hme : ew ∈ ewDirs := by rcases hew with rfl | rfl <;> decide
   have hln : Unpack.isLegal Gen.LEGAL_NS (pyLower [ns]) = true := by rcases hns with rfl | rfl <;> decide
   have hle : Unpack.isLegal Gen.LEGAL_EW (pyLower [ew]) = true := by rcases hew with rfl | rfl <;> decide
-  have e1 := finishTwpRge_num t ht ns hfn (S Gen.UNDEF_TWP) (S Gen.ERR_TWP) Gen.cs76 nsDirs cs76_mem ns_not_digit hmn hwn
-  have e2 := finishTwpRge_num r hr ew hfe (S Gen.UNDEF_RGE) (S Gen.ERR_RGE) Gen.cs80 ewDirs cs80_mem ew_not_digit hme hwe
+  have e1 := finishTwpRge_num t ht ns hfn (S Gen.UNDEF_TWP) (S Gen.ERR_TWP) Gen.cs_acfaf790 nsDirs cs76_mem ns_not_digit hmn hwn
+  have e2 := finishTwpRge_num r hr ew hfe (S Gen.UNDEF_RGE) (S Gen.ERR_RGE) Gen.cs_4dcd5a8d ewDirs cs80_mem ew_not_digit hme hwe
   have e3 := finishSec_num s hs
   have p0 : Gen.inl_trs_TRS_construct_trs_0 =
-    Rx.seq (.wordb Gen.cs18) (.seq (numRx 1 2 3 Gen.cs76) (.wordb Gen.cs18)) := rfl
+    Rx.seq (.wordb Gen.cs_14d6aa8a) (.seq (numRx 1 2 3 Gen.cs_acfaf790) (.wordb Gen.cs_14d6aa8a)) := rfl
   have p1 : Gen.inl_trs_TRS_construct_trs_1 =
-    Rx.seq (.wordb Gen.cs18) (.seq (numRx 1 2 3 Gen.cs80) (.wordb Gen.cs18)) := rfl
+    Rx.seq (.wordb Gen.cs_14d6aa8a) (.seq (numRx 1 2 3 Gen.cs_4dcd5a8d) (.wordb Gen.cs_14d6aa8a)) := rfl
   unfold constructTrs
   simp only [hln, hle, scrub, Option.getD_none, p0, p1, e1, e2, e3]
   simp [pure, Except.pure]
